@@ -7,7 +7,7 @@ use itertools::Itertools;
 use state::type_variable::TypeVariable;
 
 use crate::{
-    constant::BYTE_SIZE_BITS,
+    constant::{BYTE_SIZE_BITS, WORD_SIZE_BITS},
     error::{
         container::Locatable,
         unification::{Error, Errors, Result},
@@ -264,8 +264,18 @@ impl TypeChecker {
             // Get one or more types from the storage slot
             match self.abi_type_for(ty_var)? {
                 AbiValue::Type(typ) => layout.add(index, 0, typ),
+                // Nested packed types accumulate their offsets, so evidence about a value that is narrower
+                // than the evidence assumes can end up positioned past the top of the word. Such an entry
+                // (or one whose known width runs past it) describes bits that do not exist in the slot, so
+                // it is not part of the layout.
                 AbiValue::Packed(types) => types
                     .into_iter()
+                    .filter(|(typ, offset)| {
+                        *offset < WORD_SIZE_BITS
+                            && typ
+                                .known_width_bits()
+                                .map_or(true, |width| offset.saturating_add(width) <= WORD_SIZE_BITS)
+                    })
                     .for_each(|(typ, offset)| layout.add(index, offset, typ)),
             }
         }
